@@ -41,12 +41,13 @@ DK = {"ode": DerivativeKeysODE, "statio": DerivativeKeysPDEStatio, "nonstatio": 
 
 
 def cases(tier, seed):
-    eqs = BOUNDS[tier]["eq"]
     out = []
     for kind in ("ode", "statio", "nonstatio"):
-        out.append(dict(type="cube", kind=kind, eq=eqs))
+        # quick: two equation parameters for the 2^9 / 2^12 cubes, one for the non-stationary 2^10 cube
+        eqs = ["a", "b"] if (tier == "thorough" or kind != "nonstatio") else ["a"]
+        out.append(dict(type="cube", kind=kind, eq=eqs, quick=tier == "quick"))
         out.append(dict(type="strings", kind=kind, eq=eqs))
-        out.append(dict(type="system", kind=kind, eq=eqs))
+        out.append(dict(type="system", kind=kind, eq=BOUNDS[tier]["eq"]))
     return [c for c in out if not (c["type"] == "system" and c["kind"] != "ode")]
 
 
@@ -106,11 +107,15 @@ class EqNonStatio(jinns.loss.PDENonStatio):
 EQ = {"ode": EqODE, "statio": EqStatio, "nonstatio": EqNonStatio}
 
 
-def dk_from_masks(kind, eqs, terms, masks):
-    """masks: (n_terms, 1+len(eqs)) booleans (python or traced)"""
+def dk_from_masks(kind, eqs, terms, masks, reverse_keys=False):
+    """masks: (n_terms, 1+len(eqs)) booleans (python or traced).  reverse_keys: write the mask dictionaries with their
+    keys in reverse order (a dict is matched by key, not by position)"""
     kw = {}
+    order = list(enumerate(eqs))
+    if reverse_keys:
+        order = order[::-1]
     for ti, t in enumerate(terms):
-        kw[t] = Params(nn_params=masks[ti][0], eq_params={e: masks[ti][1 + ei] for ei, e in enumerate(eqs)})
+        kw[t] = Params(nn_params=masks[ti][0], eq_params={e: masks[ti][1 + ei] for ei, e in order})
     return DK[kind](**kw)
 
 
@@ -177,20 +182,21 @@ def run_cube(case):
                 v.append(V(site, "selected_pair_gradient_depends_on_other_pairs", f"term {terms[t]} -> {gname}: deviation {errp}"))
     # eager binding: single-bit and all-but-one masks with Python booleans
     neager = 0
-    for (t, g) in itertools.product(range(nT), range(nG)):
+    pairs = sorted(itertools.product(range(nT), range(nG)), key=lambda tg: (tg[1] == 0, tg))  # equation-parameter groups first
+    for (t, g) in pairs:
         for base in (False, True):
             m = [[base] * nG for _ in range(nT)]
             m[t][g] = not base
-            le, pe, be = build(kind, eqs, dk_from_masks(kind, eqs, terms, m))
+            le, pe, be = build(kind, eqs, dk_from_masks(kind, eqs, terms, m, reverse_keys=True))
             ge = flat_grad(jax.grad(lambda p: le.evaluate(p, be)[0])(pe), eqs)
             idx = int(np.argwhere((cube.reshape(len(cube), -1) == np.array(m).reshape(-1)).all(axis=1))[0][0])
             neager += 1
             for gg in range(nG):
                 if np.abs(np.asarray(ge[gg]) - gtot[gg][idx]).max() > 1e-10 * (1 + np.abs(gtot[gg][idx]).max()):
                     v.append(V(site, "eager_python_boolean_masks_disagree_with_traced_masks", f"mask {m} group {gg}"))
-            if tier_is_quick(case) and neager >= 8:
+            if tier_is_quick(case) and neager >= 10:
                 break
-        if tier_is_quick(case) and neager >= 8:
+        if tier_is_quick(case) and neager >= 10:
             break
     return dict(viol=v, evals=len(cube) + neager, nontrivial=[f"{kind}|{i}" for i in range(len(cube)) if cube[i].any()],
                 outcomes=[f"{kind}|{round(float(np.abs(gtot[0]).sum()), 6)}"] + [f"{kind}|g{g}|{len(np.unique(np.round(gtot[g], 9), axis=0))}" for g in range(nG)],
@@ -198,7 +204,7 @@ def run_cube(case):
 
 
 def tier_is_quick(case):
-    return len(case["eq"]) == 1
+    return case.get("quick", False)
 
 
 def run_strings(case):
